@@ -112,6 +112,7 @@ def run(ctx):
 
     # ---- R05.2/R05.3/R05.5 shared with C10
     sub = type(ctx)(ctx.prop, ctx.prog, ctx.tier)
+    sub._sharing = True
     C10.run(sub)
     n2 = n5 = 0
     for o in sub.obs:
